@@ -116,11 +116,27 @@ def check_case(case, out):
                                 % (si, sel, got, ww, wl, [(o["o"], o["side"], o["price"], o["matched"], o["remaining"], o["status"]) for o in os_],
                                    [(b["side"], b["price"], b["matched_size"], b["remaining_size"], b["status"]) for b in bets])))
         prev = d
+    # C11: at the end (nothing outstanding, two polls processed) each local order agrees with the exchange's bet on matched / remaining size
+    last = out["steps"][-1] if out["steps"] else None
+    if last is not None and not last["outstanding"]:
+        for o in last["orders"]:
+            b = next((b for b in last["exchange"] if o["bet"] is not None and b["order_id"] == o["bet"]), None)
+            if b is None or o["status"] not in ("Executable", "Execution complete"):
+                continue
+            if abs((o["matched"] or 0) - b["matched_size"]) > 0.005 or (b["status"] in ("Unmatched", "Suspended") and abs((o["remaining"] or 0) - b["remaining_size"]) > 0.005) \
+                    or (b["status"] not in ("Unmatched", "Suspended")) != bool(o["complete"]):
+                key = "C11-betdaq-row-before-receipt-dropped" if o["o"] in lost else "C11-betdaq-sizes-differ"
+                bad.append((key, "BETDAQ: at the end of the script (nothing outstanding, the order poll processed twice) order %s is %s with matched %s / remaining %s, the exchange holds it as %s with matched %s / remaining %s%s"
+                            % (o["o"], o["status"], o["matched"], o["remaining"], b["status"], b["matched_size"], b["remaining_size"],
+                               ": the change was polled while the placement receipt was still on its way (no bet id yet), was dropped, and BETDAQ does not report it again" if o["o"] in lost else "")))
     return bad
 
 
 def run_family(ck, rng, n, fname, keys):
     cases = [gen_case(rng) for _ in range(n)]
+    if "C11" in keys:
+        # directed: the listed finding F-C11-3 (a change polled before the placement receipt is processed is dropped and never repeated)
+        cases.insert(0, {"steps": [["place", "b1", 101, "BACK", 200, 200, True], ["xmatch", "b1", 1], ["poll"], ["release", "b1"], ["poll"], ["poll"]]})
     outs = run_impl_parallel("betdaqlib", [{"job": "script", "cases": ch} for ch in chunked(cases, 5)], timeout=1800)
     res = [r for o in outs for r in o["out"]]
     bad = []
